@@ -114,6 +114,13 @@ where
         ..
     } = opened_values_targets;
 
+    // `degree_bits` is prover-supplied: it must be a valid shift amount and, with a hiding PCS,
+    // cover the ZK adjustment (the initial trace domain has `degree >> is_zk` points).
+    if *degree_bits >= usize::BITS as usize || *degree_bits < config.is_zk() {
+        return Err(VerificationError::InvalidProofShape(format!(
+            "invalid degree bits {degree_bits}"
+        )));
+    }
     let degree = 1 << degree_bits;
     let lookup_gadget = LogUpGadget {};
     let preprocessed_width = opt_opened_preprocessed_local_targets
